@@ -286,6 +286,37 @@ def schema_check(spec):
         return type(e).__name__
 
 
+TOK_ROT = None
+
+
+def history_check(spec) -> Optional[str]:
+    """type_check_references must not depend on earlier checks of the same object: verdict against a second schema (every primitive
+    type rotated) on a FRESH property vs on a property that was first checked against the first schema"""
+    global TOK_ROT
+    init()
+    if TOK_ROT is None:
+        TOK_ROT = (S.message_token(S.rotate_types(S.SCHEMA_THIS), 'ThisR'), S.message_token(S.rotate_types(S.SCHEMA_ALIAS), 'AliasR'))
+    ev_b = ('ev', 't2', None, spec)
+    p = {'scope': 'globally', 'pattern': 'response', 'activator': None, 'terminator': None, 'trigger': ('ev', 't1', 'A', None), 'behaviour': ev_b, 'max_time': None, 'meta': None}
+
+    def verdict(prop, tok):
+        try:
+            prop.type_check_references({'t1': tok[1], 't2': tok[0], 'A': tok[1]})
+            return None
+        except Exception as e:
+            return type(e).__name__
+    fresh = verdict(props.build_property(p), TOK_ROT)
+    seq_obj = props.build_property(p)
+    first = verdict(seq_obj, TOK)
+    second = verdict(seq_obj, TOK_ROT)
+    again = verdict(seq_obj, TOK)
+    if second != fresh:
+        return f'against the rotated schema a fresh property gives {fresh or "accepted"}, the same property after a check against the first schema gives {second or "accepted"}'
+    if again != first:
+        return f'the first schema: {first or "accepted"} at first, {again or "accepted"} after a check against another schema'
+    return None
+
+
 def inside_index(path, spec) -> bool:
     """is this position inside an index expression of an enclosing array access?"""
     cur = spec
@@ -305,6 +336,9 @@ def case(spec):
         return [], 0  # not an accepted predicate at all (C04's matter: e.g. a quantified variable name reused at two types): no host for fault injection
     if ok is not None:
         return [(f'valid-rejected:{ok}@{text}', f'valid «{text}» -> {ok}', {'kind': 'fault', 'spec': spec})], 1
+    h = history_check(spec)
+    if h is not None:
+        found.append((f'check-depends-on-history@{text}', f'«{text}»: {h}', {'kind': 'fault', 'spec': spec}))
     for path, ref, qv in ref_positions(spec):
         if S.root_of(ref)[0] == 'var' and S.root_of(ref)[1] in qv:
             continue
